@@ -714,13 +714,18 @@ Proof.
     exists (b1 ++ b2). split.
     + cbn [cvS map ser_list fst]. rewrite E1. cbn [bind].
       fold (cvS V E r). rewrite E2. cbn [bind]. rewrite blen_app. f_equal. f_equal. lia.
-    + intros pre post Hpre. cbn [cvD map des_fstruct].
-      replace (pre ++ (b1 ++ b2) ++ post) with (pre ++ b1 ++ (b2 ++ post)) by now rewrite <- !app_assoc.
-      rewrite (D1 pre (b2 ++ post) Hpre).
-      replace (pre ++ b1 ++ b2 ++ post) with ((pre ++ b1) ++ b2 ++ post) by now rewrite <- !app_assoc.
-      fold (cvD V E ((pre ++ b1) ++ b2 ++ post) r).
-      rewrite (D2 (pre ++ b1) post) by (rewrite blen_app; lia).
-      unfold ins. cbn [fold_left]. fold acc'. rewrite blen_app. f_equal. lia.
+    + intros pre post Hpre.
+      pose proof (D1 pre (b2 ++ post) Hpre) as D1'.
+      pose proof (D2 (pre ++ b1) post ltac:(rewrite blen_app; lia)) as D2'.
+      replace (pre ++ b1 ++ b2 ++ post) with (pre ++ (b1 ++ b2) ++ post) in D1'
+        by now rewrite <- !app_assoc.
+      replace ((pre ++ b1) ++ b2 ++ post) with (pre ++ (b1 ++ b2) ++ post) in D2'
+        by now rewrite <- !app_assoc.
+      set (buf := pre ++ (b1 ++ b2) ++ post) in *.
+      cbn [cvD map des_fstruct]. rewrite D1'.
+      change (map (fun mt0 : minfo * ty => (fst mt0, (snd mt0, des_ty V E buf (snd mt0)))) r)
+        with (cvD V E buf r).
+      rewrite D2'. unfold ins. cbn [fold_left]. fold acc'. rewrite blen_app. f_equal. lia.
 Qed.
 
 Lemma rt_struct : forall V E ms d x, mem_hyp V E ms d -> x <> Mutable ->
